@@ -1,31 +1,20 @@
 (* C16 property theorems (statements only; proofs are in Proofs.v).
 
-   [login_burst] / [step] model the code of /repo as it is (tied to it by the correspondence check on
-   every run); [spec_burst] is what the property says the settings imply.  [run auto init es] is
-   the session machine driven by an arbitrary list of events from the freshly constructed client;
-   "plain" lists contain no loss in the middle of the login emission (LoginCut) and none noticed
-   inside a user tracking task (LostInTracking) - the two situations in which the code loses track
-   of its session (findings C16-N2, C16-N3), for which the statements are refuted below. *)
+   [login_burst] / [step] model the code of /repo after the repairs F19, F20 (+C11-N1), C16-N1, C16-N3
+   (tied to it by the correspondence check on every run); [spec_burst] is what the property says the
+   settings imply.  [run auto init es] is the session machine driven by an arbitrary list of events
+   from the freshly constructed client; "plain" lists contain no loss in the middle of the login
+   emission (LoginCut) - the one situation in which the code still loses track of its session
+   (finding C16-N2, kept known), for which the reset statement is refuted below. *)
 From Slsk Require Import Base.Tac.
 From Slsk Require Import C16.Model C16.Proofs.
 
-(* Login advertises the settings: every category except the favourite rooms is exactly what the
-   settings say; the favourite rooms are joined iff auto_join is FALSE. *)
-Theorem C16_burst_exact_partial : forall s ports shares,
-  filter (fun m => negb (is_join m)) (login_burst s ports shares) =
-  filter (fun m => negb (is_join m)) (spec_burst s ports shares) /\
-  filter is_join (login_burst s ports shares) = (if s_auto_join s then [] else map JoinRoom (s_favorites s)) /\
-  filter is_join (spec_burst s ports shares) = (if s_auto_join s then map JoinRoom (s_favorites s) else []) /\
-  (s_favorites s = [] -> login_burst s ports shares = spec_burst s ports shares).
-Proof.
-  intros. split; [apply burst_other_categories|]. split; [apply burst_joins|]. split; [apply burst_joins|].
-  apply burst_exact_when_consistent.
-Qed.
-
-(* ... so the burst is NOT what the settings say (finding F19: rooms.auto_join is tested inverted). *)
-Theorem C16_burst_exact_refuted : exists s ports shares,
-  In (JoinRoom 1) (spec_burst s ports shares) /\ ~ In (JoinRoom 1) (login_burst s ports shares).
-Proof. exact burst_refuted. Qed.
+(* Login advertises the settings: the burst is exactly what the settings say (F19 repaired), in
+   particular the favourite rooms are joined iff auto_join. *)
+Theorem C16_burst_exact : forall s ports shares,
+  login_burst s ports shares = spec_burst s ports shares /\
+  filter is_join (login_burst s ports shares) = (if s_auto_join s then map JoinRoom (s_favorites s) else []).
+Proof. intros. split; [apply burst_exact|apply burst_joins]. Qed.
 
 (* Commands are refused without a session - in every state. *)
 Theorem C16_no_command_without_session : forall auto x,
@@ -46,21 +35,12 @@ Theorem C16_loss_resets_once_partial : forall auto es, forallb plain es = true -
   count OSessionDestroyed (snd (run auto init es)) + (if session (final auto es) then 1 else 0).
 Proof. intros auto es H. pose proof (session_balance auto es init H eq_refl) as K. cbn [session init b2n] in K. unfold final, b2n in *. lia. Qed.
 
-(* Both fail in general.  C16-N2: the connection breaks while the SessionInitialized handlers are
-   sending: afterwards the connection is closed but managers hold a session and tracking state. *)
+(* They fail when the connection breaks while the SessionInitialized handlers are sending (C16-N2):
+   afterwards the connection is closed but managers hold a session and tracking state. *)
 Theorem C16_loss_resets_refuted_cut :
   let x := final false [Start true; LoginCut HNetwork] in
   conn x = Closed /\ msession x = true /\ derived x = true.
 Proof. exact cut_refuted. Qed.
-
-(* C16-N3: the loss is noticed inside a user tracking task: connection closed, session never destroyed,
-   a command is still accepted, and the next login initialises a second session (2 inits, 0 destroys). *)
-Theorem C16_loss_resets_refuted_tracking :
-  let p := run true init [Start true; Login RepOk; LostInTracking RWrite; Command; Tick true; Login RepOk] in
-  conn (fst (run true init [Start true; Login RepOk; LostInTracking RWrite])) = Closed /\
-  session (fst (run true init [Start true; Login RepOk; LostInTracking RWrite])) = true /\
-  count OSent (snd p) = 1 /\ count OSessionInit (snd p) = 2 /\ count OSessionDestroyed (snd p) = 0.
-Proof. exact tracking_refuted. Qed.
 
 (* Reconnect decision: from every plain-reachable logged-in or connected state that was not stopped,
    after a loss with reason r the next watchdog period opens a connection iff auto-reconnect is on
@@ -79,37 +59,26 @@ Proof.
   - intros [A B]. rewrite A, B in K. cbn in K. now apply Nat.ltb_lt.
 Qed.
 
-(* stop() is final when, at the time of the call, the connection is open or no watchdog is left
-   over, no potential-parent connect is pending and no tracking task is wedged: afterwards the
-   connection is not open, no watchdog, no pending connect task, and NO later event (anything but a
-   new start()) ever opens a connection. *)
-Theorem C16_stop_final_partial : forall auto x es,
-  stop_pre x = true -> forallb not_start es = true ->
+(* stop() is final, from EVERY state (also after a loss in the login burst): afterwards the
+   connection is not open, no watchdog, no pending potential-parent connect, and NO later event
+   (anything but a new start()) ever opens a connection. *)
+Theorem C16_stop_final : forall auto x es,
+  forallb not_start es = true ->
   let y := fst (step auto x Stop) in
   quiet_b auto y = true /\ quiet_b auto (fst (run auto y es)) = true /\ count OConnect (snd (run auto y es)) = 0.
 Proof.
-  intros auto x es Hp Hes y.
-  pose proof (allst_ok _ (stop_quiet_ok auto) x) as K. cbv beta in K. rewrite Hp in K. cbn [implb] in K. fold y in K.
+  intros auto x es Hes y.
+  pose proof (allst_ok _ (stop_quiet_ok auto) x) as K. cbv beta in K. fold y in K.
   split; [exact K|]. apply quiet_run; assumption.
 Qed.
-
-(* It is not final in general.  F20: potential-parent connect tasks survive stop(). *)
-Theorem C16_stop_final_refuted_parents :
-  parents (final false [Start true; Login RepOk; Parents; Stop]) = true.
-Proof. exact stop_refuted_parents. Qed.
-
-(* C16-N1: stop() after an unrequested loss leaves the watchdog, which reconnects after stop(). *)
-Theorem C16_stop_final_refuted_watchdog :
-  let p := run true init [Start true; Login RepOk; Lost RRead; Stop; Tick true] in
-  stopped (fst p) = true /\ conn (fst p) = Connected /\ count OConnect (snd p) = 2.
-Proof. exact stop_refuted_watchdog. Qed.
 
 (* non-vacuity *)
 Example C16_nonvacuous :
   let es := [Start true; Login RepOk; Dist; Command; Lost RTimeout; Tick false; Tick true; Login RepOk; Command; Stop; Tick true] in
   forallb plain es = true /\ count OSessionInit (snd (run true init es)) = 2 /\ count OSessionDestroyed (snd (run true init es)) = 2 /\
   count OSent (snd (run true init es)) = 2 /\ count OConnect (snd (run true init es)) = 3 /\
-  stop_pre (fst (run true init [Start true; Login RepOk; Dist])) = true /\
   conn (final true [Start true; Login RepOk]) = Connected /\ stopped (final true [Start true; Login RepOk]) = false /\
-  In (JoinRoom 2) (login_burst (mkSettings 6 7 [1] [1] [3] [1; 2] false true true) (6, 7) (3, 4)).
+  In (JoinRoom 2) (login_burst (mkSettings 6 7 [1] [1] [3] [1; 2] true true true) (6, 7) (3, 4)) /\
+  forallb plain [Start true; Login RepOk; LostInTracking RWrite; Tick true] = true /\
+  parents (fst (run true init [Start true; Login RepOk; Parents; Lost RRead])) = true /\ watchdog (fst (run true init [Start true; Login RepOk; Parents; Lost RRead])) = true.
 Proof. vm_compute. repeat split; try reflexivity. repeat (first [left; reflexivity | right]). Qed.
